@@ -647,7 +647,8 @@ def run_case(ctx, ci, rng, cases, records):
         for k in range(nslices):
             kk = tree.slice_key(k)
             keys.append(flat([kk[ix] for ix in out_sliced], [size_dict[ix] for ix in out_sliced]))
-        model = "X_stack true %s prog [%s]%%nat slices" % (czl, ";".join(map(str, keys)))
+        chunk0d = "true" if len(out_sliced) == len(output) else "false"
+        model = "X_stack true %s %s prog [%s]%%nat slices" % (czl, chunk0d, ";".join(map(str, keys)))
         if exact_err is not None:
             expect = "None"
         else:
